@@ -42,12 +42,26 @@ def main():
             r = sh(f'{env} /venv/bin/python {dst}/demo.py')
             meta['demo_exit_changed'] = r.returncode
             meta['demo_output_changed'] = (r.stdout + r.stderr)[-600:]
-            r = sh(f'{env} /venv/bin/python -m pytest -q -p no:cacheprovider --timeout=900 --continue-on-collection-errors '
-                   f'adsg_core/tests --deselect adsg_core/tests/assign_enc/test_time_limiter.py::test_time_limiter 2>&1 | tail -1')
-            meta['test_suite_with_change'] = r.stdout.strip()
+            outs = []
+            for hs in ('0', '1', '2'):   # the suite must pass whatever the hash seed (set iteration orders)
+                r = sh(f'{env.replace("PYTHONHASHSEED=0", "PYTHONHASHSEED="+hs)} /venv/bin/python -m pytest -q -p no:cacheprovider --timeout=900 '
+                       f'--continue-on-collection-errors adsg_core/tests '
+                       f'--deselect adsg_core/tests/assign_enc/test_time_limiter.py::test_time_limiter 2>&1 | tail -1')
+                if ' failed' in r.stdout:   # timing-sensitive tests fail now and then on a loaded machine: one retry
+                    r2 = sh(f'{env.replace("PYTHONHASHSEED=0", "PYTHONHASHSEED="+hs)} /venv/bin/python -m pytest -q -p no:cacheprovider --timeout=900 '
+                            f'--continue-on-collection-errors adsg_core/tests '
+                            f'--deselect adsg_core/tests/assign_enc/test_time_limiter.py::test_time_limiter 2>&1 | tail -1')
+                    if ' failed' not in r2.stdout:
+                        r = r2
+                outs.append(r.stdout.strip())
+            meta['test_suite_with_change'] = outs[0]
+            meta['test_suite_with_change_hashseeds_0_1_2'] = outs
+            meta['suite_passes'] = all(' failed' not in o and ' error' not in o and ' passed' in o for o in outs)
     finally:
         sh(f'git -C /repo worktree remove --force {scratch}')
-    if meta.get('patch_applies_to_head'):
+    if meta.get('patch_applies_to_head') and not meta.get('suite_passes'):
+        print('  REJECTED: the test suite does not pass with this change:', meta.get('test_suite_with_change_hashseeds_0_1_2'))
+    if meta.get('patch_applies_to_head') and meta.get('suite_passes'):
         assert sh('git -C /repo status --porcelain -uno').stdout.strip() == '', 'repo not clean'
         r = sh(f'git -C /repo apply {dst}/patch.diff')
         assert r.returncode == 0, r.stderr
